@@ -36,14 +36,17 @@ CLAIMED["C18"] = ("DESIGN.md §4 C18",
     "Tokenizer: z3 shows the only escaping exception is TokenizerError and the token texts concatenate to the input; quoted "
     "strings over a 8-symbol alphabet up to length 5 and quoted names / quoted ranges (escaped quotes in any end point) over "
     "the alphabet ' : a of length 7 (8 with space, thorough) are never split; formulas rendered by the reader's own handlers are accepted; "
-    "a formula tokenized after another (accepted or rejected) formula is tokenized as if alone (2+2 characters, thorough 3+3).",
+    "a formula tokenized after another (accepted or rejected) formula is tokenized as if alone (2+2 characters, thorough 3+3); references by "
+    "header label rendered by the real CellRange code (labels of 1-3 characters over a - ' space) are accepted (known finding for "
+    "apostrophes and for quoted labels behind a table prefix).",
     "trusted: pysym, regex alphabet-partition model, float(str) outcome model; outside: longer strings, fixture formulas; reader output limited to string+integer+reference operands, one operator, one function")
 CLAIMED["C11"] = ("DESIGN.md §4 C11",
     "Row/column arguments are unbounded symbolic ints: z3 shows Table.cell, write, set_cell_style (through "
     "_validate_cell_coords) and iter_rows/iter_cols of the real code address exactly the stated cell/rectangle, agree with "
     "the A1 form, raise IndexError outside, and grow the table to exactly the needed size (small-scope shapes); symbolic A1 "
     "text of 1-3 letters and 1..8 digits with optional '$' names the position its letters and digits say and is refused at/after the limits; "
-    "a reference used again after the table shrank grows it again.",
+    "a reference used again after the table shrank grows it again, and a reference read again after an insertion or deletion names "
+    "the cell now at that position.",
     "trusted: pysym; Table built directly over real cells with a stub model; outside: growth > 3, shapes beyond 3x2, "
     "set_cell_formatting/set_cell_border beyond the shared coordinate check, lower-case A1 spellings")
 
